@@ -950,7 +950,7 @@ def single_consumer(eng: Engine, ctx: Ctx, rid: str):
         ctx.bad(rid, f.qualname, norm(eng.repo.enclosing_stmt(node)), expected=f"self.{sf} used only through .read/.readline and the getter", found="other use of the stream object", **eng.loc(f, node))
     for f in eng.repo.all_funcs():
         for node in walk_no_nested(f.node):
-            if isinstance(node, ast.Call) and isinstance(node.func, ast.Attribute) and node.func.attr in ("seek", "peek", "tell", "unread", "truncate", "seekable", "unget", "ungetc"):
+            if isinstance(node, ast.Call) and isinstance(node.func, ast.Attribute) and node.func.attr in ("seek", "peek", "unread", "truncate", "unget", "ungetc"):  # tell() / seekable() observe, they do not reposition
                 n += 1
                 ctx.bad(rid, f.qualname, norm(node), expected="no repositioning of any stream", found=f".{node.func.attr}()", **eng.loc(f, node))
     ctx.instance("stream read sites", len(uses["read"]) + len(uses["readline"]), 2)
